@@ -71,7 +71,7 @@ func main() {
 		// Stay alive until the uploader half of the sidecar has run the go
 		// command (or for a short while), so that its descendants are seen.
 		me := "\"/" + strconv.Itoa(pid) + "/"
-		for i := 0; i < 400; i++ {
+		for i := 0; i < 1500; i++ {
 			data, _ := os.ReadFile(os.Getenv("VERIF_C16_LOG"))
 			if strings.Contains(string(data), me) {
 				break
